@@ -52,9 +52,11 @@ from agilerl.utils.algo_utils import (
     assert_supported_space,
     chkpt_attribute_to_device,
     compile_model,
+    get_detached_tensors,
     is_module_list,
     isroutine,
     key_in_nested_dict,
+    load_detached_tensors,
     preprocess_observation,
     recursive_check_module_attrs,
     remove_compile_prefix,
@@ -151,6 +153,7 @@ def get_checkpoint_dict(agent: SelfEvolvableAlgorithm) -> Dict[str, Any]:
                 ]
                 init_dict = [m.init_dict for m in obj_list]
                 state_dict = [remove_compile_prefix(m.state_dict()) for m in obj_list]
+                detached = [get_detached_tensors(m) for m in obj_list]
             else:
                 obj_list = [obj]
                 obj_cls = (
@@ -160,12 +163,16 @@ def get_checkpoint_dict(agent: SelfEvolvableAlgorithm) -> Dict[str, Any]:
                 )
                 init_dict = obj.init_dict
                 state_dict = remove_compile_prefix(obj.state_dict())
+                detached = get_detached_tensors(obj)
 
             network_info["modules"].update(
                 {
                     f"{attr}_cls": obj_cls,
                     f"{attr}_init_dict": init_dict,
                     f"{attr}_state_dict": state_dict,
+                    # NOTE: Tensors installed by the mutation hooks (detached targets, shared
+                    # encoders) are not part of the state dict and must be saved explicitly
+                    f"{attr}_detached": detached,
                 }
             )
         else:
@@ -831,12 +838,16 @@ class EvolvableAlgorithm(ABC, metaclass=RegistryMeta):
             }
             loaded_module = getattr(self, name)
             state_dict = net_dict[f"{name}_state_dict"]
+            detached = net_dict.get(f"{name}_detached")
             if isinstance(loaded_module, list):
-                for loaded_mod, state in zip(loaded_module, state_dict):
+                for i, (loaded_mod, state) in enumerate(zip(loaded_module, state_dict)):
                     if state:
                         loaded_mod.load_state_dict(state)
-            elif state_dict:
-                loaded_module.load_state_dict(state_dict)
+                    load_detached_tensors(loaded_mod, detached[i] if detached else None)
+            else:
+                if state_dict:
+                    loaded_module.load_state_dict(state_dict)
+                load_detached_tensors(loaded_module, detached)
 
         optimizer_names = network_info["optimizer_names"]
         for name in optimizer_names:
@@ -987,12 +998,16 @@ class EvolvableAlgorithm(ABC, metaclass=RegistryMeta):
                 self, name
             )
             state_dict = net_dict[f"{name}_state_dict"]
+            detached = net_dict.get(f"{name}_detached")
             if isinstance(loaded_module, list):
-                for loaded_mod, state in zip(loaded_module, state_dict):
+                for i, (loaded_mod, state) in enumerate(zip(loaded_module, state_dict)):
                     if state:
                         loaded_mod.load_state_dict(state)
-            elif state_dict:
-                loaded_module.load_state_dict(state_dict)
+                    load_detached_tensors(loaded_mod, detached[i] if detached else None)
+            else:
+                if state_dict:
+                    loaded_module.load_state_dict(state_dict)
+                load_detached_tensors(loaded_module, detached)
 
         # Reconstruct optimizers in algorithm
         optimizer_names = network_info["optimizer_names"]
